@@ -125,9 +125,15 @@ def case(g, tier, ci):
         if fk == "sine" and i == 0:
             start, step = 0, SR / 40
             stop = (k + f) * step
+        qs = q
+        if not (fk == "sine" and i == 0) and r.random() < 0.3:
+            # start, stop and step all Python ints, the step not dividing the span: still round(|stop-start|/step)+1
+            # equidistant values from start to stop inclusive (0, 5, 10 for 0..10 step 4)
+            start, stop, step = r.choice([(0, 10, 4), (0, 10, 6), (1, 6, 2), (10, 0, 4), (-3, 4, 2), (0, 7, 3), (2, 2, 1), (0, 6, 3)])
+            qs = int
         ops += [{"op": "el.desc", "id": "e", "_tag": "in0"},
-                {"op": "tl.linvary", "base": "e", "to": "s", "ch": ch, "name": nm, "arg": enc(arg), "start": q(start), "stop": q(stop),
-                 "step": q(step), "_tag": "call"},
+                {"op": "tl.linvary", "base": "e", "to": "s", "ch": ch, "name": nm, "arg": enc(arg), "start": qs(start), "stop": qs(stop),
+                 "step": qs(step), "_tag": "call"},
                 {"op": "sq.desc", "id": "s", "_tag": "out", "_numtol": "1/1000000000"}, {"op": "sq.check", "id": "s"},
                 {"op": "sq.forge", "id": "s", "delays": True, "filters": True, "time": False},
                 {"op": "el.desc", "id": "e", "_tag": "in1"}]
